@@ -512,7 +512,7 @@ func (e *Engine) CheckProperty(prop, tier, verifDir string, verbose, writeEviden
 			unsupported = append(unsupported, r.Func+": "+u)
 		}
 		for _, n := range r.Notes {
-			if strings.HasPrefix(n, "contract used:") && strings.Contains(n, "assumed, external") || strings.HasPrefix(n, "assumed pure") || strings.HasPrefix(n, "unknown code") || strings.HasPrefix(n, "axiom assumed") || strings.HasPrefix(n, "bit operation") {
+			if strings.HasPrefix(n, "contract used:") && strings.Contains(n, "assumed, external") || strings.HasPrefix(n, "assumed pure") || strings.HasPrefix(n, "unknown code") || strings.HasPrefix(n, "axiom assumed") || strings.HasPrefix(n, "bit operation") || strings.HasPrefix(n, "NOT CHECKED") {
 				trusted[n] = true
 			}
 		}
@@ -608,6 +608,7 @@ func (e *Engine) CheckProperty(prop, tier, verifDir string, verbose, writeEviden
 		if canaries != nil {
 			ev["coverage"].(map[string]any)["canaries"] = canaries
 		}
+		ev["coverage"].(map[string]any)["assumption_scan"] = e.assumptionScan(keys)
 		os.MkdirAll(filepath.Join(verifDir, "evidence"), 0o755)
 		b, _ := json.MarshalIndent(ev, "", " ")
 		os.WriteFile(filepath.Join(verifDir, "evidence", prop+".json"), b, 0o644)
@@ -814,4 +815,49 @@ func runCanaries(prop, verifDir, repoDir string) ([]map[string]any, []string) {
 		out = append(out, rec)
 	}
 	return out, missed
+}
+
+// assumptionScan: mechanical scan of the contracts of the functions this run verified (and of every contract they use)
+// for the constructs that are assumptions rather than proof.
+func (e *Engine) assumptionScan(keys []string) map[string]any {
+	var trustedFns, lockOnly, assumePre, blocking []string
+	for _, k := range e.CS.sortedKeys() {
+		c := e.CS.Funcs[k]
+		if c.External {
+			continue
+		}
+		switch {
+		case c.Trusted:
+			trustedFns = append(trustedFns, shortFn(k))
+		case c.AssumePre:
+			assumePre = append(assumePre, shortFn(k))
+		}
+		if c.Blocking {
+			blocking = append(blocking, shortFn(k))
+		}
+		if c.LockOnly {
+			lockOnly = append(lockOnly, shortFn(k))
+		}
+	}
+	ext := 0
+	for _, c := range e.CS.Funcs {
+		if c.External {
+			ext++
+		}
+	}
+	var axioms []string
+	for _, ax := range e.CS.Axioms {
+		axioms = append(axioms, ax.Label)
+	}
+	sort.Strings(axioms)
+	return map[string]any{
+		"scope":                       "whole contract set loaded for this run (module-wide, not only this property)",
+		"trusted_bodies_not_verified": trustedFns,
+		"assume_callee_pre_bodies":    assumePre,
+		"blocking_sends_not_checked":  blocking,
+		"lockonly_entries":            len(lockOnly),
+		"external_assumed_contracts":  ext,
+		"axioms":                      axioms,
+		"engine_models_assumed":       "sync, sync/atomic, errors, fmt.Errorf, encoding/binary, time, append/copy/maps/channels (turnvc/models.go)",
+	}
 }
